@@ -135,13 +135,17 @@ structure PRec where
   entries : List Ident
 deriving DecidableEq, Repr, Inhabited
 
-/-- proposals newest first; `hw` is the persisted committed watermark -/
+/-- proposals newest first; `hw` is the persisted committed watermark.  `fresh` is a store-kind
+    attribute that never changes: a MessageDB store fed with ServerAllocatedMessageIDs = true and
+    records without idempotency key, where `prepareExactAppendRecordsLocked` treats an append at
+    exactly the log end as `sequencedFresh` and skips the by-command / by-last / entry-set checks. -/
 structure Store where
   props : List PRec
   hw : Nat
+  fresh : Bool
 deriving DecidableEq, Repr, Inhabited
 
-def Store.empty : Store := ⟨[], 0⟩
+def Store.empty : Store := ⟨[], 0, false⟩
 
 def Store.leo (s : Store) : Nat :=
   match s.props with
@@ -248,6 +252,7 @@ def Store.appendDecision (s : Store) (m : Manifest) (cs : List Nat) : ADec :=
     if (lastIdent es).digest ≠ m.digest then .conflict 0
     else if m.base > s.leo then .conflict (s.leo + 1)
     else if m.base > 0 ∧ s.prevMismatch m then .conflict 0
+    else if s.fresh ∧ m.base = s.leo then .append es          -- sequencedFresh (pkg/db/message/compat.go)
     else if (s.byCmd m.cmd).isSome ∨ (s.byLast m.last).isSome then
       (if s.isExactReplay m es then .already else .conflict 0)
     else if es.any (fun e => (s.entryAt e.index).isSome) then .conflict 0
@@ -308,7 +313,7 @@ def Store.replace (s : Store) (expected : RState) (keep : Nat) (ps : List PRec) 
         .error .conflict
       else if keep > 0 ∧ (s.byLast keep).isNone then .error .conflict
       else
-        let kept : Store := ⟨s.props.filter (fun p => p.m.last ≤ keep), s.hw⟩
+        let kept : Store := ⟨s.props.filter (fun p => p.m.last ≤ keep), s.hw, s.fresh⟩
         match appendAll kept ps with
         | none => .error .conflict
         | some next => .ok { next with hw := committed }
@@ -459,11 +464,11 @@ structure Sys where
   owners : List (AuthId × Nat)        -- control-plane grant: authority id ↦ leader
 deriving DecidableEq, Repr, Inhabited
 
-def mkNodes : Nat → List NodeSt
+def mkNodes (fresh : Bool) : Nat → List NodeSt
   | 0 => []
-  | k + 1 => ⟨true, none, Store.empty⟩ :: mkNodes k
+  | k + 1 => ⟨true, none, ⟨[], 0, fresh⟩⟩ :: mkNodes fresh k
 
-def Sys.init (n q cap : Nat) : Sys := ⟨n, q, cap, false, mkNodes n, []⟩
+def Sys.init (n q cap : Nat) (fresh : Bool := false) : Sys := ⟨n, q, cap, false, mkNodes fresh n, []⟩
 def Sys.default : Sys := Sys.init 3 2 2
 
 def Sys.node? (s : Sys) (i : Nat) : Option NodeSt := if i = 0 then none else s.nodes[i - 1]?
@@ -998,7 +1003,7 @@ def repairFollower (s : Sys) (l f nf : Nat) : Sys × Res :=
 /-! ## operations -/
 
 inductive Op where
-  | cfg (n q cap : Nat)
+  | cfg (n q cap : Nat) (fresh : Bool)
   | install (node : Nat) (a : Authority) (probes : List PSpec) (acks : List Ack)
   | commit (node : Nat) (expected : AuthId) (c : Nat) (k p : Nat) (acks : List Ack)
   | crash (node : Nat)
@@ -1015,9 +1020,9 @@ def ownerOf (owners : List (AuthId × Nat)) (a : AuthId) : Option Nat :=
   | none => none
 
 def step (s : Sys) : Op → Sys × Res
-  | .cfg n q cap =>
+  | .cfg n q cap fresh =>
     if s.started ∨ n < 1 ∨ n > 5 ∨ q < 1 ∨ q > n ∨ cap < 1 ∨ cap > 8 then (s, .bad)
-    else ({ Sys.init n q cap with started := true }, .ok)
+    else ({ Sys.init n q cap fresh with started := true }, .ok)
   | .crash i =>
     let s := { s with started := true }
     match s.node? i with
